@@ -19,6 +19,7 @@ import (
 
 	"github.com/ory/fosite"
 	enigma "github.com/ory/fosite/token/hmac"
+	"github.com/ory/fosite/token/jwt"
 	"github.com/ory/fosite/zz_verif_h/zz"
 )
 
@@ -110,23 +111,78 @@ func ZZ_C07_hmac() {
 		zz.Assert(err == nil, "refresh token without session expiry is honoured (unlimited)")
 		return
 	}
+	// Cover labels and observations are taken well inside the regions so that the covering models
+	// replay identically although the native clock moves between the readings.
 	if now.After(hu.Add(zzC07Margin)) {
-		zz.Cover("expired", true)
-		zz.Cover("expired:session-expiry", expSet)
-		zz.Cover("expired:requested-at+configured", !expSet && life != 0)
-		zz.Cover("expired:requested-at+default", !expSet && life == 0)
-		zz.Observe("expired", expired)
 		zz.Assert(err != nil, "nothing validates after honoured-until")
 		zz.Assert(expired, "after honoured-until the validator answers token-expired")
+		if now.After(hu.Add(2 * zzC07Margin)) {
+			zz.Cover("expired", true)
+			zz.Cover("expired:session-expiry", expSet)
+			zz.Cover("expired:requested-at+configured", !expSet && life != 0)
+			zz.Cover("expired:requested-at+default", !expSet && life == 0)
+			zz.Observe("expired", expired)
+		}
 	} else if now.Before(hu.Add(-zzC07Margin)) {
-		zz.Cover("live", true)
-		zz.Cover("live:session-expiry", expSet)
-		zz.Cover("live:requested-at+configured", !expSet && life != 0)
-		zz.Cover("live:requested-at+default", !expSet && life == 0)
-		zz.Observe("expired", expired)
 		zz.Assert(!expired, "no expiry error before honoured-until")
 		zz.Assert(err == nil, "a minted, unexpired token validates")
-	} else {
+		if now.Before(hu.Add(-2 * zzC07Margin)) {
+			zz.Cover("live", true)
+			zz.Cover("live:session-expiry", expSet)
+			zz.Cover("live:requested-at+configured", !expSet && life != 0)
+			zz.Cover("live:requested-at+default", !expSet && life == 0)
+			zz.Observe("expired", expired)
+		}
+	} else if now.After(hu.Add(-zzC07Margin/2)) && now.Before(hu.Add(zzC07Margin/2)) {
 		zz.Cover("boundary", true)
+	}
+}
+
+// ---- JWT access tokens: DefaultJWTStrategy.ValidateAccessToken over a model signer.
+//
+// zzC07Signer stands for a jwt.Signer whose signature check passed (assumption A-jose): Decode
+// hands back the claims and, like DefaultSigner.Decode -> ParseWithClaims, the verdict of Claims.Valid().
+type zzC07Signer struct{ claims jwt.MapClaims }
+
+func (s *zzC07Signer) Generate(ctx context.Context, claims jwt.MapClaims, header jwt.Mapper) (string, string, error) {
+	return "h.c.s", "s", nil
+}
+func (s *zzC07Signer) Validate(ctx context.Context, token string) (string, error) { return "s", nil }
+func (s *zzC07Signer) Hash(ctx context.Context, in []byte) ([]byte, error)        { return in, nil }
+func (s *zzC07Signer) Decode(ctx context.Context, token string) (*jwt.Token, error) {
+	t := &jwt.Token{Header: map[string]interface{}{"alg": "RS256"}, Claims: s.claims, Method: "RS256"}
+	if err := s.claims.Valid(); err != nil {
+		return t, err
+	}
+	return t, nil
+}
+func (s *zzC07Signer) GetSignature(ctx context.Context, token string) (string, error) { return "s", nil }
+func (s *zzC07Signer) GetSigningMethodLength(ctx context.Context) int                 { return 32 }
+
+// ZZ_C07_jwt_strategy: the session expiry E becomes the exp claim (JWTClaims.With/ToMapClaims, as in
+// DefaultJWTStrategy.generate); validation refuses with token-expired once the second of E has passed.
+func ZZ_C07_jwt_strategy() {
+	ctx := context.Background()
+	w := zzC07Window()
+	if zz.Thorough() {
+		w = 50 * 365 * 24 * 3600 // keeps every claim value positive
+	}
+	now := time.Now()
+	e := now.Add(zzC07Dur("exp", -w, w))
+	claims := (&jwt.JWTClaims{Subject: "peter", JTI: "jti-1"}).With(e, []string{"photos"}, []string{"aud"}).WithDefaults(now.Add(-time.Hour), "iss")
+	strat := &DefaultJWTStrategy{Signer: &zzC07Signer{claims: claims.ToMapClaims()}}
+	err := strat.ValidateAccessToken(ctx, nil, "h.c.s")
+	expired := errors.Is(err, fosite.ErrTokenExpired)
+	if now.After(e.Add(time.Second + zzC07Margin)) {
+		zz.Cover("jwt:expired", true)
+		zz.Observe("expired", expired)
+		zz.Assert(err != nil, "JWT access token is refused after its expiry (+1s)")
+		zz.Assert(expired, "expired JWT access token answers token-expired")
+	} else if now.Before(e.Add(-zzC07Margin)) {
+		zz.Cover("jwt:live", true)
+		zz.Observe("expired", expired)
+		zz.Assert(err == nil, "JWT access token is honoured before its expiry")
+	} else {
+		zz.Cover("jwt:boundary", true)
 	}
 }
